@@ -278,10 +278,22 @@ func runConc(w *bufio.Writer, id int, seed int64) (fails int) {
 	db2.Close()
 	// Drop while the asynchronous-write routine and writers are at work: once Drop has returned and the
 	// writers have stopped, nothing may write the database back (a final state no sequential order gives)
-	for k := 0; k < 12; k++ {
-		if msg := dropProbe(seed*97 + int64(k)); msg != "" {
-			fail("%s", msg)
-			break
+	for wave := 0; wave < 4 && fails == 0; wave++ {
+		msgs := make([]string, 8)
+		var pw sync.WaitGroup
+		for k := range msgs {
+			pw.Add(1)
+			go func(k int) {
+				defer pw.Done()
+				msgs[k] = dropProbe(seed*97 + int64(wave*8+k))
+			}(k)
+		}
+		pw.Wait()
+		for _, msg := range msgs {
+			if msg != "" {
+				fail("%s", msg)
+				break
+			}
 		}
 	}
 	fmt.Fprintf(w, "conc %d goroutines=%d objects=%d fails=%d cfg=%s\n", id, G, len(want), fails, c.Lines()[0])
